@@ -9,7 +9,7 @@ EXPLANATION = (
     'the spectrum of A before the base sort on every normal path and not touched afterwards; every subscript of the Ritz arrays '
     '(restart shift loop with its conjugate-pair look-ahead, nev_adjusted, complex-shift back-transformation) is within the '
     'array for all sizes (zone analysis shared with C13); every work buffer of the back-transformation loops that is refreshed inside the loop is refreshed on every path from the start of an iteration to each read (no Ritz pair is tested against the previous pair\'s solve). Necessary conditions on the factorization the Ritz pairs come from are shared with C07: the sub-diagonal entry is zero '
-    'exactly on breakdown paths, and the factorization is resumed at its own dimension on every init() / compute() history. Does NOT decide residuals, '
+    'exactly on breakdown paths, and the factorization is resumed at its own dimension on every init() / compute() history. Every reader of the stored Ritz values / estimates / vectors in compute() is preceded on every path from entry by the member that rebuilds them from H under the selection rule of this call (a compute() that follows another compute() never works on the re-ordered, possibly back-transformed values the earlier call left). Does NOT decide residuals, '
     'unit norm, the choice of root in the complex-shift back-transformation or distinctness of pairs.')
 ASSUMPTIONS = ['Eigen kernels and std::sort are correct', 'instantiations listed in drivers/ are representative of every OpType']
 BASE = 'Spectra::GenEigsBase'
@@ -20,6 +20,7 @@ def run(ctx):
     fz.resumed_at_own_dimension(ctx, BASE)
     fz.subdiagonal_on_breakdown(ctx)
     eigsbase.flag_freshness(ctx, BASE)
+    eigsbase.ritz_data_of_current_call(ctx, BASE)
     eigsbase.coherent_permutation(ctx, BASE)
     eigsbase.coherent_retrieve(ctx, BASE)
     eigsbase.convergence_test_shape(ctx, BASE)
